@@ -34,6 +34,12 @@ def generate(seed, tier):
             for sizes in itertools.product(range(1, 5), repeat=k):
                 cases.append(_case(derived_rng(seed, 'C08', i), sizes))
                 i += 1
+        for a in range(5, 130):           # a long fastest dimension under a short slow one: every length once
+            cases.append(_case(derived_rng(seed, 'C08', i), [a, 2]))
+            i += 1
+        for sizes in ([7, 7, 3], [7, 7, 2, 2], [11, 9, 2], [13, 8, 3]):
+            cases.append(_case(derived_rng(seed, 'C08', i), sizes))
+            i += 1
         return cases
     n_cases = {'quick': 200, 'search': 1200}[tier]
     for i in range(n_cases):
@@ -42,6 +48,9 @@ def generate(seed, tier):
         sizes = [rng.choice([1, 2, 2, 3, 3, 4, 5]) for _ in range(k)]
         if rng.random() < 0.2:
             sizes = [sizes[0]] * k
+        if i % 8 == 5:                    # long dimensions (the builders use floating-point ramps internally)
+            sizes = rng.choice([[rng.randint(5, 129), 2], [7, 7, rng.choice([2, 3])], [rng.choice([49, 98, 103, 107]), 2],
+                                [rng.randint(5, 40), rng.randint(2, 6), 2]])
         cases.append(_case(rng, sizes))
     return cases
 
